@@ -16,6 +16,20 @@ const maxInlineBlocks = 24
 
 func (a *Act) call(st *State, c *ssa.CallCommon, site ssa.Instruction, pos token.Pos) []Term {
 	tr := a.tr
+	if tr.frameMode && a.callRetains(c) {
+		for _, x := range c.Args {
+			if _, isConst := x.(*ssa.Const); isConst {
+				continue
+			}
+			if _, isFn := x.(*ssa.Function); isFn {
+				continue
+			}
+			if _, isPtr := x.Type().Underlying().(*types.Pointer); isPtr {
+				continue
+			}
+			tr.markEscaped(st, x.Type(), a.valAs(st, x))
+		}
+	}
 	// builtins
 	if b, ok := c.Value.(*ssa.Builtin); ok {
 		return a.builtin(st, b, c, pos)
@@ -76,13 +90,14 @@ func (a *Act) onStack(fn *ssa.Function) bool {
 func (a *Act) callFunc(st *State, callee *ssa.Function, closure *Closure, args []Term, pos token.Pos, c *ssa.CallCommon) []Term {
 	tr := a.tr
 	name := callee.String()
+	a.checkNoLockHeldAtCall(st, name, pos)
 	// 1. stubs for functions outside the module
 	if stub := tr.eng.stubFor(name); stub != nil {
 		tr.usedStubs[name] = true
 		return stub(a, st, callee, args, pos)
 	}
 	// 2. contract
-	if fc := tr.eng.contracts.forFunc(callee); fc != nil && fc.modular() && !(a.depth == 0 && false) {
+	if fc := tr.eng.contracts.forFunc(callee); fc != nil && fc.modular() && !tr.noContracts {
 		return a.applyContract(st, callee, fc, args, pos)
 	}
 	// 3. inline module functions
@@ -180,6 +195,9 @@ func (a *Act) havocCall(st *State, sig *types.Signature, args []Term, module boo
 			if !all && !mods[name] && !c.value {
 				continue
 			}
+			if strings.HasPrefix(name, "ghost:lock") {
+				continue
+			}
 			delete(st.heap, name)
 		}
 		na := tr.freshConst("alloc_call", "Int")
@@ -203,7 +221,8 @@ func (a *Act) dynamicCall(st *State, c *ssa.CallCommon, args []Term, pos token.P
 	a.mayPanic(st, "nilfunc", pos, Not(Eq(fv, "0")), "")
 	// field contract?
 	if key := fieldOfValue(c.Value); key != "" {
-		if fc := tr.eng.contracts.fieldContract(key); fc != nil {
+		if fc := tr.eng.contracts.fieldContract(key); fc != nil && !tr.noContracts {
+			a.checkNoLockHeldAtCall(st, "field:"+key, pos)
 			return a.applyFieldContract(st, fc, fv, args, pos, c)
 		}
 	}
@@ -265,6 +284,7 @@ func (a *Act) builtin(st *State, b *ssa.Builtin, c *ssa.CallCommon, pos token.Po
 	case "delete":
 		mt := c.Args[0].Type().Underlying().(*types.Map)
 		k := a.valAs(st, c.Args[1])
+		a.checkMapAccess(st, c.Args[0], true, pos)
 		a.mapDelete(st, mt, a.val(c.Args[0]), k, pos)
 		return nil
 	case "recover":
@@ -329,7 +349,7 @@ func (a *Act) appendOp(st *State, c *ssa.CallCommon, pos token.Pos) Term {
 	inPlace := tr.define("app_inplace", "Bool", app("<=", newLen, sCap))
 	// frame: an in-place append of n>0 elements writes cells of s's array
 	if tr.frameMode && comp.value {
-		a.oblige(st, "frame/store", pos, And(inPlace, app(">", n, "0")), tr.writable(sArr),
+		a.oblige(st, "frame/store", pos, And(inPlace, app(">", n, "0")), tr.writableAt(st, sArr),
 			map[string]Term{"target": sArr, "len": sLen, "cap": sCap, "n": n})
 	}
 	// fresh array for the reallocating case
@@ -372,7 +392,7 @@ func (a *Act) copyOp(st *State, c *ssa.CallCommon, pos token.Pos) Term {
 		st.heap[comp.name] = tr.heapCopy(prev, app("s_arr", d), app("s_off", d), n, prev, app("s_arr", s), app("s_off", s))
 	}
 	if tr.frameMode && comp.value {
-		a.oblige(st, "frame/store", pos, app(">", n, "0"), tr.writable(app("s_arr", d)), map[string]Term{"target": app("s_arr", d)})
+		a.oblige(st, "frame/store", pos, app(">", n, "0"), tr.writableAt(st, app("s_arr", d)), map[string]Term{"target": app("s_arr", d)})
 	}
 	return n
 }
@@ -547,5 +567,9 @@ func (a *Act) invokeStub(st *State, c *ssa.CallCommon, args []Term, pos token.Po
 	tr.havocked["invoke:"+key] = true
 	// calling a method on a nil interface panics
 	a.mayPanic(st, "nilderef", pos, Not(Eq(args[0], "VNil")), "")
+	// ... and so does a value-receiver method reached through a nil pointer held in the interface
+	for _, pt := range tr.eng.valueRecvPtrTypes(c.Method.Name()) {
+		a.mayPanic(st, "nilderef", pos, Implies(tr.eng.sorts.isCtor(pt, args[0]), Not(Eq(tr.eng.sorts.unVal(pt, args[0]), "0"))), "")
+	}
 	return a.havocCall(st, sig, args[1:], false, pos, key)
 }
